@@ -77,7 +77,7 @@ Definition is_start_with_directive (b : bytes) : bool :=
   else is_response_code3 b || existsb (fun k => is_prefix k b) real_keywords.
 
 Section WithInput.
-  Variable prog : list (string * list stmt).
+  Variable prog : list (string * stmt).
   Variable nl_cond ws_cond : cond.
   Variable data : bytes.
   Variable olen : okind -> Z -> olen_res.
@@ -172,8 +172,14 @@ Section WithInput.
     EUnexpected w e (c_cur cf) (negb (c_cur cf <? data_size)).
 
   (* statements fall through (FFall) or leave the step function (FRet/FErr/FPanic) *)
-  Fixpoint exec_stmt (c : byte) (s : stmt) (cf : conf) {struct s} : flow :=
+  Fixpoint exec (c : byte) (s : stmt) (cf : conf) {struct s} : flow :=
     match s with
+    | SSkip => FFall cf
+    | SSeq a b =>
+        match exec c a cf with
+        | FFall cf' => exec c b cf'
+        | o => o
+        end
     | SSetStep st => FFall (set_step cf st)
     | SPush st => FFall (set_sstack cf (st :: c_sstack cf))
     | SPushCur => FFall (set_sstack cf (c_step cf :: c_sstack cf))
@@ -185,19 +191,10 @@ Section WithInput.
     | SFound ev off => FFall (set_finds cf (c_finds cf ++ [(ev, c_cur cf + off)]))
     | SAddCur dz => FFall (set_cur cf (c_cur cf + dz))
     | SIf k t e =>
-        let fix go (l : list stmt) (cf : conf) {struct l} : flow :=
-          match l with
-          | [] => FFall cf
-          | x :: r =>
-              match exec_stmt c x cf with
-              | FFall cf' => go r cf'
-              | o => o
-              end
-          end in
         match eval_cond cf c k with
         | None => FPanic PIndexRange
-        | Some true => go t cf
-        | Some false => go e cf
+        | Some true => exec c t cf
+        | Some false => exec c e cf
         end
     | SOracle k =>
         match olen k (c_cur cf) with
@@ -211,17 +208,7 @@ Section WithInput.
     | SRetRedispatch => FRet KRedispatch cf
     end.
 
-  Fixpoint exec_list (c : byte) (l : list stmt) (cf : conf) {struct l} : flow :=
-    match l with
-    | [] => FFall cf
-    | x :: r =>
-        match exec_stmt c x cf with
-        | FFall cf' => exec_list c r cf'
-        | o => o
-        end
-    end.
-
-  Definition body_of (st : state) : option (list stmt) :=
+  Definition body_of (st : state) : option stmt :=
     option_map snd (nth_error prog (N.to_nat st)).
 
   (* one invocation of s.step(s, c), following direct calls and re-dispatches *)
@@ -232,7 +219,7 @@ Section WithInput.
         match body_of st with
         | None => RPanic PNoState
         | Some body =>
-            match exec_list c body cf with
+            match exec c body cf with
             | FFall _ => RPanic PFallthrough
             | FErr e => RErr e
             | FPanic p => RPanic p
